@@ -71,6 +71,8 @@ V2NextSim ==
   IF Len(hist) >= D THEN V2Finish
   ELSE LET c == Classes[RandomElement(1..Len(Classes))] IN
     CASE c = "set"    -> IF Keys \ Touched = {} THEN V2Save ELSE \E k \in Keys \ Touched, v \in Vals : V2Set(k, v)
+      [] c = "setnew" -> LET fresh == (Keys \ Touched) \ KeysOf(work) IN
+                         IF fresh = {} THEN V2Save ELSE \E k \in fresh, v \in Vals : V2Set(k, v)
       [] c = "rm"     -> IF KeysOf(work) \ Touched = {} THEN V2Save ELSE \E k \in KeysOf(work) \ Touched : V2Remove(k)
       [] c = "save"   -> V2Save
       [] c = "reopen" -> IF latest = 0 \/ nops > 0 THEN V2Save ELSE V2Reopen
